@@ -62,26 +62,36 @@ MANIFEST = {
                   "decodersSR under the same key - and S uses its reader only through position-relative operations (74 types: "
                   "C03_delegate_sound_ext / C03_delegating_pair_agree, proved once for all extended reader programs: ReadUintN/IntN, ReadBytes, "
                   "ReadFixedLengthString with any count, zero-terminated strings with a count below 2^62, SkipBytes, AccError, positions relative "
-                  "to the entry; buffers below 2^61 bytes), or delegating and named (visual sample entry: its pair theorem; esds evte meta "
-                  "sgpd stpp trep wvtt: explored); (ii) a CONTAINER TWIN - the same text around DecodeContainerChildren / ...SR (17 types: "
-                  "the container kind of C03_decode_agree_canonical; edts sinf stbl, whose SR decoder also returns sr.AccError(): explored) or "
-                  "moov/moof (reader path reads the body and runs the SR text on it: KContBody with the extracted flag); (iii) SEPARATELY "
-                  "WRITTEN and named in the theorem: trun senc mdat stsd mfhd tfdt (pair theorems) or explored (audio sample entry, av1C avcC "
-                  "dac3 dec3 dref hvcC styp vttc); free skip cdat are RAW-BODY pairs (readBoxBody vs ReadBytes(payloadLen)+AccError into the same "
-                  "box: the opaque leaf of C03_std_canon_leaf), emeb vtte PURE TWINS (same text, reader untouched). A reader-path decoder rewritten by hand, an SR decoder that "
+                  "to the entry; buffers below 2^61 bytes), or delegating and named: the visual sample entries (C03_vse_pair_agree_canonical), "
+                  "trep (C03_counted_pairs_agree_canonical), wvtt (C03_entry_pairs_agree_canonical), or EXPLORED: esds evte meta sgpd stpp; "
+                  "(ii) a CONTAINER TWIN - the same text around DecodeContainerChildren / ...SR (20 types: the container kind of "
+                  "C03_decode_agree_canonical; for edts sinf stbl, whose SR decoder returns sr.AccError() instead of nil, C03_twin_accerr_canonical: "
+                  "on a canonical box at any position of the buffer the test never fires) or moov/moof (reader path reads the body and runs the "
+                  "SR text on it: KContBody with the extracted flag); (iii) a BODY-FUNCTION pair - readBoxBody then REST(data) against "
+                  "REST(sr.ReadBytes(hdr.payloadLen())), bound first (with or without a test of the accumulated error) or in place, REST the same "
+                  "text not touching the reader: avcC hvcC av1C dac3 dec3 mdat (C03_bodyfn_pair_agree: the same pure function of the body, the SR "
+                  "decoder standing at the end of the body without error; C03_bodyfn_short for a missing body); free skip cdat styp are RAW-BODY pairs "
+                  "(readBoxBody vs ReadBytes(payloadLen)+AccError into the same box, len(data) = hdr.payloadLen(): the opaque leaf of "
+                  "C03_std_canon_leaf), emeb vtte PURE TWINS (same text, reader untouched); (iv) SEPARATELY WRITTEN and named in the theorem, with "
+                  "BOTH decoders modelled: trun senc stsd mfhd tfdt, dref (C03_counted_pairs_agree_canonical), the audio sample entries mp4a enca "
+                  "ac-3 ec-3 (C03_entry_pairs_agree_canonical: the reader path runs the READER-path box decoder on the rest of the body), or "
+                  "EXPLORED: vttc. Explored-only decoder keys: 6 (were 22): esds evte meta sgpd stpp vttc. "
+                  "A reader-path decoder rewritten by hand, an SR decoder that "
                   "starts using GetPos / RemainingBytes / LookAhead ..., a guard present on one path only, or a type registered with another "
                   "SR decoder leaves its class: the theorem fails and the check names the box type, the function and the reason. ENCODERS "
                   "(C03_all_encoders_classified): of the 112 types with Encode and EncodeSW, 76 Encode methods are exactly `sw := "
                   "NewFixedSliceWriter(int(b.Size())); err := b.EncodeSW(sw); ...; w.Write(sw.Bytes())` (C03_enc_delegate_agree: equal bytes "
-                  "provided Size() covers what EncodeSW writes; C03_enc_delegate_size_needed: the proviso is needed), 18 are EncodeContainer / "
-                  "EncodeContainerSW and 2 EncodeHeader / EncodeHeaderSW alone (C03_box_encode_agree), File MediaSegment Fragment InitSegment are "
-                  "the same text twice (C03_encode_agree); Av1CBox HvcCBox MoofBox (same text twice) and AudioSampleEntryBox DrefBox MetaBox "
-                  "SencBox TrepBox WvttBox are named as explored. "
+                  "provided Size() covers what EncodeSW writes; C03_enc_delegate_size_needed: the proviso is needed), SencBox.Encode is that behind "
+                  "`s.setSubSamplesUsedFlag()`, which EncodeSW repeats (C03_enc_prelude_agree: equal for every idempotent prelude; idempotence from "
+                  "C02), 18 are EncodeContainer / EncodeContainerSW and 2 EncodeHeader / EncodeHeaderSW alone (C03_box_encode_agree), File "
+                  "MediaSegment Fragment InitSegment MoofBox are the same text twice and modelled (C03_encode_agree, C03_encode_state_agree); "
+                  "MdatBox StsdBox VisualSampleEntryBox and DrefBox TrepBox WvttBox AudioSampleEntryBox (header, fixed bytes, children: "
+                  "C03_pfx_enc_agree) are modelled pairs; explored-only encoder types: 3 (were 9): Av1CBox HvcCBox (same text twice around the "
+                  "codec configuration record's own Encode / EncodeSW) and MetaBox. "
                   "NOT PROVED: that a Go SR decoder classified position-relative IS one of the reader programs the theorem quantifies over "
                   "(the extractor's claim: every use of the reader parameter, transitively through callees, is a listed method; counts bounded "
                   "as stated in harness/c03/srcfacts.go) - tested by the table, the rewrites and the run-time probe, and for tfhd by the P lines. "
-                  "EXPLORED only: the named pairs above and the remaining leaf ENCODER pairs, i.e. the hypothesis `leaves agree` of the encode "
-                  "theorems: both paths are run on "
+                  "EXPLORED only: the named pairs above, i.e. part of the hypothesis `leaves agree` of the encode theorems: both paths are run on "
                   "every testdata file, every harvested box, generated trun/senc/mdat/stsd/sample-entry boxes, every box kind and every "
                   "file with 16-byte-header boxes before/between/after fragments, and their structured mutants; whenever one path accepts "
                   "and reproduces the input exactly the other must accept with an equal Info dump, field-by-field equal structure "
@@ -156,7 +166,7 @@ EXPECT_DEC = {
     "moov": ("DecodeMoov", "container-body", False), "moof": ("DecodeMoof", "container-body+accerr", False),
     # separately written
     "trun": ("DecodeTrun", "separate", True), "senc": ("DecodeSenc", "separate", True), "mdat": ("DecodeMdat", "body-fn", True),
-    "stsd": ("DecodeStsd", "separate", False), "mfhd": ("DecodeMfhd", "separate", True), "tfdt": ("DecodeTfdt", "separate", True),
+    "stsd": ("DecodeStsd", "separate", False), "ac-3": ("DecodeAudioSampleEntry", "separate", False), "mfhd": ("DecodeMfhd", "separate", True), "tfdt": ("DecodeTfdt", "separate", True),
     "free": ("DecodeFree", "raw-body", True), "skip": ("DecodeFree", "raw-body", True), "cdat": ("DecodeCdat", "raw-body", True),
     "vtte": ("DecodeVtte", "pure-twin", True), "emeb": ("DecodeEmeb", "pure-twin", True), "avcC": ("DecodeAvcC", "body-fn", True), "dref": ("DecodeDref", "separate", False),
     "mp4a": ("DecodeAudioSampleEntry", "separate", False), "vttc": ("DecodeVttc", "separate", False), "styp": ("DecodeStyp", "raw-body", True),
@@ -468,6 +478,7 @@ def run(ctx):
         "model: coq/c03/C03EncHistModel.v (Encode / EncodeSW of MoofBox, MdatBox, Fragment, MediaSegment, File as state transformers, one function per Go "
         "text; the states and the callees OptimizeTfhdTrun / SetTrunDataOffsets / MdatBox.Size are coq/c02/C02AggModel.v + coq/c05, imported read-only; "
         "hooks mp4.VerifC02FirstSampleFlags / VerifC05WriteOrderNr read two unexported trun fields)",
+        "model: coq/c03/C03PfxModel.v (dref.go, trep.go, wvtt.go, audiosamplentry.go decoders and encoders) is a hand transcription, one Gallina function per Go function",
         "hook: /repo/mp4/verif_c03.go VerifDecoderKeys (add-only, build tag verif); coq/c03/C03Registry.v generated from it",
         "source facts: harness/c03/srcfacts.go classifies every registered decoder pair and every Encode/EncodeSW pair from the sources "
         "(coq/c03/C03Facts.v generated from it on every run); the classes it accepts are syntactic shapes, the step from `only listed reader "
@@ -488,7 +499,7 @@ def run(ctx):
     rc, cases, e = harness(exe, ["corr", "-seed", ctx.seed, "-n", n, "-exh", exh], 3000)
     if rc != 0:
         raise common.CheckError("harness corr failed rc=%s: %s" % (rc, e[-1000:]))
-    lines = [l for l in cases.splitlines() if l[:2] in ("D\t", "E\t", "B\t", "L\t", "T\t", "V\t", "M\t", "P\t", "Y\t", "H\t")]
+    lines = [l for l in cases.splitlines() if l[:2] in ("D\t", "E\t", "B\t", "L\t", "T\t", "V\t", "M\t", "P\t", "Y\t", "H\t", "C\t")]
     res = common.run_model(model, "\n".join(lines) + "\n")
     mism = [l for l in res if not l.startswith("OK ")]
     distinct = len(set(l.split("\t", 2)[2] for l in lines))
@@ -496,7 +507,7 @@ def run(ctx):
     ctx.cov["distinct_nontrivial"] += distinct
     ctx.notes["correspondence"] = {
         "cases": len(lines), "mismatches": len(mism), "distinct_cases": distinct,
-        "kinds": {k: sum(1 for l in lines if l.startswith(k + "\t")) for k in ("D", "E", "B", "L", "T", "V", "M", "P", "Y", "H")},
+        "kinds": {k: sum(1 for l in lines if l.startswith(k + "\t")) for k in ("D", "E", "B", "L", "T", "V", "M", "P", "Y", "H", "C")},
         "input_distribution": "D: all shape lists up to length %d over the 32-letter alphabet (C04's 29 + mdat(0/4) and an unknown box behind a 16-byte "
                               "header) + %d random longer lists, through DecodeFile and "
                               "DecodeFileSR with flags none / start-on-moof: outcome class, grouping, StartPos; E: the same lists (length >= 2) and 6 small "
@@ -512,7 +523,9 @@ def run(ctx):
                               "lengths 0/4/31/32/255, 0..2 children incl. lying children, boxes shorter than the 78 fixed bytes); M: every V input that decodes "
                               "to an stsd / sample entry and 8 mdat boxes: model encoders vs Encode/EncodeSW bytes; P: mfhd, tfdt (v0/v1), tfhd (all 32 "
                               "combinations of the optional-field flags) with the same variants: fields, Size, consumed, AccError of both decoders vs "
-                              "the reader programs; Y: synthesized files [ftyp moov{traks clear / encrypted with tenc IV 0/8/16 / without tenc / without tkhd / "
+                              "the reader programs; C: dref, trep, wvtt, mp4a/enca/ac-3/ec-3 with 0..3 standard-leaf children x the same variants (lying sizes, "
+                              "truncations, 16-byte headers, lying entry counts, boxes shorter than the fixed part) vs dref_r/sr, trep_r/sr, wvtt_r/sr, ase_r/sr, and "
+                              "their encoders (M) vs pfx_enc_w/sw; Y: synthesized files [ftyp moov{traks clear / encrypted with tenc IV 0/8/16 / without tenc / without tkhd / "
                               "without entry}] [free] (moof{1..4 trafs} mdat){1,2}, every traf with a track id or no tfhd and no senc / zero-sample senc / "
                               "unparsed senc that parses (8- or 16-byte IVs, sub-samples) / that does not / PIFF senc / saio matching, mismatching, empty / "
                               "seig sample group: every ordered pair of the 12 traf kinds, clear-encrypted-zero-sample triples in every order under 8 trak "
